@@ -7082,4 +7082,58 @@ pub mod verif_hooks {
 		};
 		addr.len()
 	}
+
+	/// The bytes `OutboundOnionPayload::write` produces for a final-hop payload (`Receive`, or `BlindedReceive`
+	/// when `blinded`) carrying the given custom TLVs, optionally a keysend preimage and (blinded only) an
+	/// invoice request built from a throw-away offer.
+	pub fn final_onion_payload_bytes(
+		blinded: bool, custom_tlvs: &Vec<(u64, Vec<u8>)>, keysend: bool, invreq: bool,
+	) -> Vec<u8> {
+		use crate::ln::channelmanager::PaymentId;
+		use crate::ln::inbound_payment::ExpandedKey;
+		use crate::offers::nonce::Nonce;
+		use crate::offers::offer::OfferBuilder;
+		use crate::types::payment::PaymentPreimage;
+		use bitcoin::secp256k1::{Secp256k1, SecretKey};
+		let keysend_preimage = if keysend { Some(PaymentPreimage([7; 32])) } else { None };
+		let secp_ctx = Secp256k1::new();
+		let invoice_request = if blinded && invreq {
+			let sk = SecretKey::from_slice(&[42; 32]).unwrap();
+			let offer = OfferBuilder::new(sk.public_key(&secp_ctx)).amount_msats(1000).build().unwrap();
+			let key = ExpandedKey::new([3; 32]);
+			let nonce = Nonce::try_from(&[5u8; 16][..]).unwrap();
+			Some(
+				offer
+					.request_invoice(&key, nonce, &secp_ctx, PaymentId([1; 32]))
+					.unwrap()
+					.build_and_sign()
+					.unwrap(),
+			)
+		} else {
+			None
+		};
+		let encrypted_tlvs = vec![9u8; 4];
+		let payload = if blinded {
+			OutboundOnionPayload::BlindedReceive {
+				sender_intended_htlc_amt_msat: 1000,
+				total_msat: 1000,
+				cltv_expiry_height: 100,
+				encrypted_tlvs: &encrypted_tlvs,
+				intro_node_blinding_point: None,
+				keysend_preimage,
+				invoice_request: invoice_request.as_ref(),
+				custom_tlvs,
+			}
+		} else {
+			OutboundOnionPayload::Receive {
+				payment_data: None,
+				payment_metadata: None,
+				keysend_preimage,
+				custom_tlvs,
+				sender_intended_htlc_amt_msat: 1000,
+				cltv_expiry_height: 100,
+			}
+		};
+		payload.encode()
+	}
 }
